@@ -21,6 +21,8 @@ var cliInputs = []struct{ id, name, src string }{
 	{"simple", "setup.go", "//go:build convergen\n\npackage p\n\ntype S struct {\n\tA int\n\tB string\n}\n\ntype D struct {\n\tA int\n\tB string\n\tC int\n}\n\n// Pct is 100%d%% sure: a percent sign in carried-over text.\nconst Pct = \"50%\"\n\ntype Convergen interface {\n\tConv(*S) *D\n}\n"},
 	{"imports", "user.gorm.go", "//go:build convergen\n\npackage p\n\nimport (\n\t\"example.com/m/ext\"\n\t_ \"example.com/m/ext/v2\"\n)\n\ntype S struct {\n\tA int\n\tB string\n}\n\ntype D struct {\n\tA ext.EInt\n\tB string\n}\n\n// :typecast\ntype Convergen interface {\n\t// Conv converts.\n\t// :conv ext.Itoa A B\n\tConv(*S) *D\n}\n"},
 	{"two-interfaces", "setup.go", "//go:build convergen\n\npackage p\n\ntype S struct {\n\tA int\n\tB string\n}\n\ntype D struct {\n\tA int\n\tB string\n}\n\nfunc Post(d *D, s *S) error { return nil }\n\ntype Convergen interface {\n\t// :postprocess Post\n\tConv(*S) (*D, error)\n}\n\n// :convergen\ntype Second interface {\n\t// :style arg\n\t// :recv s\n\tFill(*S) *D\n}\n"},
+	// notations that are listed as valid but not implemented: whatever the tool says about them must not go to stdout
+	{"unimplemented-notation", "setup.go", "//go:build convergen\n\npackage p\n\ntype S struct{ A int }\n\ntype D struct{ A int }\n\ntype Convergen interface {\n\t// :tag json\n\t// :conv:type x\n\tConv(*S) *D\n}\n"},
 }
 
 type cliCase struct {
@@ -63,6 +65,8 @@ func cliReference(root string, c cliCase) cliPlan {
 		pl.Cwd, inputAsGiven = pkgDir, "./"+in.name
 	case 6:
 		pl.Cwd, inputAsGiven = pkgDir, "../p/"+in.name
+	case 7:
+		pl.Cwd, inputAsGiven = "/", filepath.Join(pkgDir, in.name) // the working directory is outside the module
 	}
 	if c.Dry == 1 {
 		pl.Args = append(pl.Args, "-dry")
@@ -86,7 +90,9 @@ func cliReference(root string, c cliCase) cliPlan {
 	case 1:
 		outAsGiven = rel("out_same.go")
 	case 2:
-		if c.Spelling == 2 {
+		if c.Spelling == 7 {
+			outAsGiven = filepath.Join(root, "outdir", "o.go")
+		} else if c.Spelling == 2 {
 			outAsGiven = "outdir/o.go"
 		} else {
 			outAsGiven = "../outdir/o.go"
@@ -187,7 +193,7 @@ func init() {
 		var cases []cliCase
 		nIn, nSp := len(cliInputs), 5
 		if th {
-			nSp = 7
+			nSp = 8
 		}
 		for in := 0; in < nIn; in++ {
 			for dry := 0; dry < 2; dry++ {
@@ -197,6 +203,9 @@ func init() {
 							for sp := 0; sp < nSp; sp++ {
 								if !th && in > 0 && (out > 1 || sp > 1) {
 									continue // quick: the other inputs get the flag cube on the two basic spellings
+								}
+								if sp == 7 && out != 0 && out != 2 {
+									continue // (a relative -out would be relative to /)
 								}
 								cases = append(cases, cliCase{in, dry, pr, lg, out, sp, 0})
 								if sp <= 1 && out <= 1 {
@@ -212,7 +221,14 @@ func init() {
 				}
 			}
 		}
-		e.Rep.Rule("complete product -dry x -print x -log x -out{unset, same dir, other dir, no extension, multi-dot} x input spelling{relative, absolute, nested from the parent dir, GOFILE only, GOFILE+argument, ./relative, with ..} x accepted inputs x prior content of the output path {none, a longer earlier generation, the up-to-date output of an earlier identical run}; " +
+		if !th {
+			for dry := 0; dry < 2; dry++ {
+				for pr := 0; pr < 2; pr++ {
+					cases = append(cases, cliCase{0, dry, pr, 0, 0, 7, 0}, cliCase{1, dry, pr, 1, 2, 7, 0}, cliCase{3, dry, pr, 0, 0, 0, 0}, cliCase{3, dry, pr, 1, 0, 0, 0})
+				}
+			}
+		}
+		e.Rep.Rule("complete product -dry x -print x -log x -out{unset, same dir, other dir, no extension, multi-dot} x input spelling{relative, absolute, nested from the parent dir, GOFILE only, GOFILE+argument, ./relative, with .., absolute from a working directory outside the module} x accepted inputs x prior content of the output path {none, a longer earlier generation, the up-to-date output of an earlier identical run}; " +
 			"-log neutrality on FAILING runs too: rejected inputs (bad notation, illegal combination, format-stage failure, no interface, syntax error) and an output path that is a directory x -dry x -print x {without, with -log}: same exit status, same stdout; " +
 			"oracle: reference model of the documented contract (output path, file written iff not -dry, stdout == code iff -print, log at <output minus ext>.log, GOFILE fallback, argument beats GOFILE) and O-diff: " +
 			"code and exit status equal those of the plain run of the same input; non-trivial = run with >= 2 of the flags set")
@@ -416,6 +432,9 @@ func (e *Env) c18LogNeutralOnFailure(base string) {
 }
 
 func rootOf(pl cliPlan) string {
+	if pl.Cwd == "/" {
+		return filepath.Dir(filepath.Dir(pl.OutPath)) // output is <root>/p/x or <root>/outdir/x
+	}
 	// cwd is <root>/p or <root>
 	if filepath.Base(pl.Cwd) == "p" {
 		return filepath.Dir(pl.Cwd)
